@@ -59,6 +59,14 @@ CLAIMED["C15"] = {
     "technique": "guard-dominance and must-pass-through facts on polymorphic + monomorphic MIR, value-term identity of compared and returned reference",
 }
 
+CLAIMED["C16"] = {
+    "category": "other",
+    "text": "Structural premises on the polymorphic MIR of new_boxed<T> and clone_dyn (valid for every T): size patching (header + sum of slice lengths) before the header copy; allocation layout term (round8(total), 8); diverging null check; header copy to offset 0; loop-carried write offset with initial value size_of Header and exactly one `+= len` paired with each copy whose source is that slice's (ptr, len) in argument order; fat Box with metadata dst_len(&header); size assertion as a fact at the return; align_of T == 8 for all 12 instantiations; clone_dyn passes exactly payload_len() bytes.",
+    "design_ref": "DESIGN.md §4 C16",
+    "note": TB + "; allocator behaviour and Box's drop (Layout::for_value) are std contracts; exactly-once free is Rust ownership",
+    "technique": "value terms + loop-carried-variable pairing (init/update/use in one natural loop) + must-pass-through facts on polymorphic MIR",
+}
+
 PENDING = "check not yet built in this session (machinery under construction; see DESIGN.md §9 build order) - not claimed until its premises run, pass on the repaired tree and fire on seeded breaks"
 NOT_APPLICABLE = {("C%02d" % i): PENDING for i in range(1, 21)}
 
